@@ -34,7 +34,7 @@ CLAIMED = {
    note="3 files x 5-6 versions, histories of length <= 3 (quick) / 4 (thorough); positional queries inside a currently unparsable document are not compared.",
    technique="TLA+ state machine over histories (TLC exhaustive) + replay on long-lived vs fresh twin + TLC trace validation (random histories; the repository's own test-suite through the trace hook)"),
  "C07": dict(level=MC, ref="DESIGN.md section 4 C07",
-   text="TLC visits every interleaving of edits, cached queries, closes, evictions and (chain universe) didOpen of unmodified documents up to the bound, proves WarmEqualsColdRepaired on the repaired design; each history ending in a query runs on a real long-lived database and on a cold twin that received only the edits (files on disk); a fourth configuration closes MODIFIED documents (the cold twin performs the same close, only earlier queries are dropped) and the main universe contains an unparsable version of the importing conftest. 64 further histories close a conftest WITHOUT saving after an edit of its import lines only and are judged against a twin that never opened the document.",
+   text="TLC visits every interleaving of edits, cached queries, closes, evictions and (chain universe) didOpen of unmodified documents up to the bound, proves WarmEqualsColdRepaired on the repaired design; each history ending in a query runs on a real long-lived database and on a cold twin that received only the edits (files on disk); a fourth configuration closes MODIFIED documents (the cold twin performs the same close, only earlier queries are dropped) and the main universe contains an unparsable version of the importing conftest. 192 further histories (go-to-definition, available fixtures, imported names) close a conftest WITHOUT saving after an edit of its import lines only and are judged against a twin that never opened the document.",
    note="3 files on disk, 4 versions each incl. mutually importing modules; <= 4/5 events with <= 3 non-edit events; eviction emulated per victim through the pub maps.",
    technique="TLA+ state machine with cache variables (TLC exhaustive) + warm/cold twin replay"),
  "C08": dict(level=MC, ref="DESIGN.md section 4 C08",
